@@ -385,13 +385,14 @@ class ProgGen:
                     return {"i": i, "c": client, "op": "add_node", "d": d_id, "t": t}
         if r < 0.46:
             a, b = rng.choice(self.tensor_cands(8)), rng.choice(self.tensor_cands(8))
-            if a != b:
+            # rank-0 operands make `*` a scalar multiplication (is_numerical_scalar), not a diagram: not generated
+            if a != b and self.tensors[a].arr.ndim and self.tensors[b].arr.ndim:
                 kind = rng.choice(["mul", "mul", "tprod"])
                 if self.tensors[a].arr.size * self.tensors[b].arr.size <= MAX_ELEMS:
                     return {"i": i, "c": client, "op": kind, "a": a, "b": b}
         if r < 0.50:
             a = rng.choice(self.tensor_cands(8))
-            if self.tensors[a].arr.ndim <= 2:
+            if 1 <= self.tensors[a].arr.ndim <= 2:
                 return {"i": i, "c": client, "op": "pow", "a": a, "k": rng.choice([1, 2, 3])}
         if r < 0.53:
             of = rng.choice(sorted(self.tensors))
@@ -570,7 +571,8 @@ def expectations(case: dict, state: dict | None = None) -> dict[int, tuple]:
                         ts[st["to"]] = MTensor(val[0], range(val[1]), range(val[1], val[1] + val[2]), _all_int8(d, ts))
             elif op in ("mul", "tprod", "pow"):
                 a = st["a"]
-                if a not in ts or ("b" in st and st["b"] not in ts):
+                if a not in ts or ("b" in st and st["b"] not in ts) or ts[a].arr.ndim == 0 or \
+                        ("b" in st and ts[st["b"]].arr.ndim == 0):
                     exp[i] = ("skip",)
                     continue
                 d = MDiagram()
